@@ -17,6 +17,9 @@ Code model of `cola/linalg/trace/diag_trace.py` (the dispatch rules of `diag` an
   `LinearOperator` rules, which have precedence -1; `Triangular` is a subclass of `Dense`;
   annotation wrappers do not change the class), results are `Except String (List R)`: an error
   class (`"error:AssertionError"`, `"error:ValueError"`) = the call REFUSES;
+* `className`, `diagRuleClass`, `traceRuleClass` — the Python class of the operator object and the
+  class in the first position of the rule the model applies (compared on every run with what the
+  live resolver of /repo selects on real instances: stream D of harness/props/c08.py);
 * `nonsqBlock`, `nonsqFactor` — the two named clauses (recorded defects): the `BlockDiag` /
   `Kronecker` rule reached with a non-square block / factor.
 -/
@@ -191,6 +194,52 @@ def traceCode (bs0 : Nat) (alg : Alg) : Op R → Except String R
       else do
         let d ← diagCode bs0 alg A 0
         pure d.sum
+
+/-! ## rule selection (which rule `diagCode` / `traceCode` apply, by class) -/
+
+/-- the Python class of the operator object (annotation wrappers do not change it; `generic` =
+`cola.fns.no_dispatch` builds a bare `LinearOperator`) -/
+def className : Op R → String
+  | dense .. => "cola.ops.operators.Dense"
+  | tri .. => "cola.ops.operators.Triangular"
+  | sparse .. => "cola.ops.operators.Sparse"
+  | scalar .. => "cola.ops.operators.ScalarMul"
+  | eye .. => "cola.ops.operators.Identity"
+  | prod _ => "cola.ops.operators.Product"
+  | sum _ => "cola.ops.operators.Sum"
+  | kron _ => "cola.ops.operators.Kronecker"
+  | kronsum _ => "cola.ops.operators.KronSum"
+  | bdiag .. => "cola.ops.operators.BlockDiag"
+  | diag .. => "cola.ops.operators.Diagonal"
+  | tridiag .. => "cola.ops.operators.Tridiagonal"
+  | transpose _ => "cola.ops.operators.Transpose"
+  | adjoint _ => "cola.ops.operators.Adjoint"
+  | sliced .. => "cola.ops.operators.Sliced"
+  | perm .. => "cola.ops.operators.Permutation"
+  | concat .. => "cola.ops.operators.Concatenated"
+  | house .. => "cola.ops.operators.Householder"
+  | generic _ => "cola.ops.operator_base.LinearOperator"
+  | annot _ A => A.className
+
+/-- the class in the first position of the signature of the `diag` rule that `diagCode` applies -/
+def diagRuleClass : Op R → String
+  | dense .. => "cola.ops.operators.Dense"
+  | tri .. => "cola.ops.operators.Dense"
+  | scalar .. => "cola.ops.operators.ScalarMul"
+  | eye .. => "cola.ops.operators.Identity"
+  | sum _ => "cola.ops.operators.Sum"
+  | kron _ => "cola.ops.operators.Kronecker"
+  | kronsum _ => "cola.ops.operators.KronSum"
+  | bdiag .. => "cola.ops.operators.BlockDiag"
+  | diag .. => "cola.ops.operators.Diagonal"
+  | annot _ A => A.diagRuleClass
+  | _ => "cola.ops.operator_base.LinearOperator"
+
+/-- the same for `trace` -/
+def traceRuleClass : Op R → String
+  | kron _ => "cola.ops.operators.Kronecker"
+  | annot _ A => A.traceRuleClass
+  | _ => "cola.ops.operator_base.LinearOperator"
 
 /-! ## named clauses -/
 
